@@ -84,7 +84,7 @@ def gen_stmts(c, n, depth, in_loop=False):
         names = [x for x, b in c.vars.items() if b == base]
         ch = g.weighted([(3, "isnil"), (2, "get"), (4, "or"), (2, "getor"), (3 if names else 0, "unwrap_stmt"),
                          (3 if names else 0, "unwrap_if"), (1 if names and depth < 2 else 0, "unwrap_while"),
-                         (3 if names else 0, "assign"), (2, "eq"), (2 if depth < 2 else 0, "block"), (2, "decl"),
+                         (3 if names else 0, "assign"), (2, "eq"), (3, "cmp2"), (2 if depth < 2 else 0, "block"), (2, "decl"),
                          (2, "listopt"), (2, "objopt"), (3, "field")])
         if ch == "isnil":
             e, s = opt_expr(c, base)
@@ -150,6 +150,24 @@ def gen_stmts(c, n, depth, in_loop=False):
                 out.append(("decl", a, ("opt", base), I(g.int(-5, 9)) if base == "int" else S(g.choice(["", "p", "qq"])), ()))
             else:
                 out.append(("decl", a, None, opt_expr(c, base)[0], ()))
+        elif ch == "cmp2":
+            # two optionals (or nil itself) compared in EITHER order: a variable, a call result, a list element and nil on the
+            # left as well as on the right, under == and !=, as a printed value and as a condition
+            def side():
+                if g.chance(25):
+                    return ("nil",), "nil"
+                if base == "int" and g.chance(45):
+                    i = g.int(0, 2)
+                    return ("index", V("lo"), I(i)), ("present" if i != 1 else "nil")
+                return opt_expr(c, base)
+            (l_, sl), (r_, sr) = side(), side()
+            if l_ == ("nil",) and r_ == ("nil",):
+                r_, sr = opt_expr(c, base)
+            c.seen.add(("cmp2", sl if sl == sr else "present"))
+            c.seen.add(("cmp2", sr))
+            g.label("compare:%s-with-%s" % (l_[0], r_[0]))
+            cmp_ = ("bin", g.choice(["==", "!="]), l_, r_)
+            out.append(("print", cmp_) if g.chance(60) else ("if", cmp_, [("print", S("same"))], [("print", S("differ"))]))
         elif ch == "eq":
             e, s = opt_expr(c, base)
             c.seen.add(("eq", s))
